@@ -329,3 +329,26 @@ class Check:
             line += " no-failing-input-found"
         print(line)
         return 1
+
+
+# ---------------------------------------------------------------- generated Go modules
+
+def make_gen_module(name):
+    """A scratch Go module under .cache/gen/<name> that resolves go.uber.org/cff to /repo."""
+    import shutil
+    d = os.path.join(CACHE, "gen", name)
+    if os.path.exists(d):
+        shutil.rmtree(d)
+    os.makedirs(d)
+    with open(os.path.join(d, "go.mod"), "w") as f:
+        f.write("module example.com/vgen\n\ngo 1.19\n\nrequire go.uber.org/cff v0.0.0\n\nreplace go.uber.org/cff => %s\n" % REPO)
+    with open(os.path.join(d, "go.sum"), "w") as f:
+        f.write(open(os.path.join(REPO, "go.sum")).read())
+    return d
+
+
+def run_cff(moddir, pattern, extra=()):
+    """Run the cff binary built from /repo on a package pattern; returns (rc, stdout+stderr)."""
+    exe = cff_build()
+    rc, out, err = run([exe] + list(extra) + [pattern], cwd=moddir, env=GOENV, check=False, timeout=1800)
+    return rc, out + "\n" + err
